@@ -132,6 +132,14 @@ class Generator(SchemaVisitor[Any]):
                 if is_ellipsis(elem):
                     continue
                 elements.append(elem.__accept__(self, **kwargs))
+            length = schema.props.len if (schema.props.len is not Nil) else schema.props.min_len
+            if length is not Nil:
+                # `...` stands for any elements: pad up to the declared (minimum) length
+                padding: List[Any] = [None] * (length - len(elements))
+                if padding and is_ellipsis(schema.props.elements[-1]):
+                    elements = elements + padding
+                else:
+                    elements = padding + elements
             return elements
 
         is_length_specified = False
